@@ -4,6 +4,7 @@ import (
 	"bytes"
 	"errors"
 	"fmt"
+	"strconv"
 	"unicode"
 	"unicode/utf8"
 
@@ -341,7 +342,10 @@ func consumeString(sr *utils.StringReader, end rune) string {
 				r = '\r'
 			case 't':
 				r = '\t'
-			case '\\':
+			case 'u':
+				r = consumeUnicodeEscape(sr)
+			case '\\', '$':
+				// PuppetQuote writes \$ in a double quoted string, where a bare $ would start an interpolation
 			default:
 				if r != end {
 					panic(fmt.Errorf("illegal escape '\\%c'", r))
@@ -354,6 +358,27 @@ func consumeString(sr *utils.StringReader, end rune) string {
 			buf.WriteRune(r)
 		}
 	}
+}
+
+// consumeUnicodeEscape reads the {X} of a \u{X} escape, one to six hexadecimal digits, which is what PuppetQuote
+// writes for a control character, and returns the character.
+func consumeUnicodeEscape(sr *utils.StringReader) rune {
+	r := sr.Next()
+	if r != '{' {
+		panic(fmt.Errorf("illegal escape '\\u%c'", r))
+	}
+	digits := bytes.NewBufferString(``)
+	for r = sr.Next(); r != '}'; r = sr.Next() {
+		if !(r >= '0' && r <= '9' || r >= 'A' && r <= 'F' || r >= 'a' && r <= 'f') || digits.Len() == 6 {
+			panic(errors.New("malformed \\u{} escape"))
+		}
+		digits.WriteRune(r)
+	}
+	v, err := strconv.ParseUint(digits.String(), 16, 32)
+	if err != nil || !utf8.ValidRune(rune(v)) {
+		panic(errors.New("malformed \\u{} escape"))
+	}
+	return rune(v)
 }
 
 func consumeIdentifier(sr *utils.StringReader, start rune, buf *bytes.Buffer) {
